@@ -37,6 +37,7 @@ ANCHORS = [
     ("src/easynetwork/lowlevel/api_async/endpoints/stream.py", "AsyncStreamEndpoint.recv_packet"),
     ("src/easynetwork/lowlevel/api_async/endpoints/stream.py", "_get_receiver"),
     ("src/easynetwork/clients/tcp.py", "TCPNetworkClient.recv_packet"),
+    ("src/easynetwork/lowlevel/_utils.py", "lock_with_timeout"),
     ("src/easynetwork/clients/tcp.py", "TCPNetworkClient.__convert_socket_error"),
     ("src/easynetwork/clients/async_tcp.py", "AsyncTCPNetworkClient.recv_packet"),
     ("src/easynetwork/clients/async_tcp.py", "AsyncTCPNetworkClient.__convert_socket_error"),
@@ -54,6 +55,9 @@ RULE = ("stream = 0-3 frames (valid / undecodable / empty payload) + optional tr
         "(transport timeouts) inserted in every gap pattern for small cases; max_recv_size in {1,2,3,64} (so chunks "
         "are split by the receiver); call histories over timeouts {None, 0, >0} of length <= 5 followed by extra calls "
         "after end-of-stream; iter_received_packets histories; transport OSErrors for the clients' conversion. "
+        "Two-thread histories: the REAL TCPNetworkClient.recv_packet (receive lock replaced by an instrumented "
+        "threading.Lock, every transport call parked until served) driven by 2 gated threads through schedules in which "
+        "the second call starts while the first is parked in the transport, several packets arriving in one segment. "
         "Non-trivial = the close falls inside a frame, or a timeout result precedes a packet, or a packet is drained "
         "from the buffer by a later call, or end-of-stream is reported at least twice.")
 TRUSTED = ["model of the four receive loops, the iterator and the clients' error conversion hand-written in "
@@ -411,9 +415,215 @@ def run_async(inp):
         asyncio.set_event_loop(None)
 
 
+# ---------------------------------------------------------------- two threads on one blocking TCP client
+
+WATCHDOG = 20.0
+
+
+class HarnessTimeout(RuntimeError):
+    pass
+
+
+class Monitor:
+    """What the scheduler (the harness thread) knows about the two receiver threads.  Every transition is made under
+    [cv]; a thread is quiescent when it is 'idle' (not in a call), 'blocked' (waiting for the receive lock) or
+    'parked' (inside transport.recv_into, waiting to be served)."""
+
+    def __init__(self):
+        self.cv = threading.Condition()
+        self.state = {0: "idle", 1: "idle"}
+        self.grant = {0: False, 1: False}
+        self.cmd = {0: None, 1: None}
+        self.log = []
+        self.tls = threading.local()
+
+    def tid(self):
+        return self.tls.tid
+
+    def wait_for(self, pred, what):
+        deadline = time.monotonic() + WATCHDOG
+        while not pred():
+            left = deadline - time.monotonic()
+            if left <= 0:
+                raise HarnessTimeout(f"watchdog: {what}; states={self.state}")
+            self.cv.wait(left)
+
+    def set(self, tid, st):
+        self.state[tid] = st
+        self.cv.notify_all()
+
+
+class InstrumentedLock:
+    """threading.Lock with the scheduler told when a thread starts waiting for it, and a deterministic hand-off: the
+    thread that gets the lock after waiting proceeds only once the releasing thread is quiescent again."""
+
+    def __init__(self, mon):
+        self.mon = mon
+        self.inner = threading.Lock()
+        self.releaser = None
+
+    def acquire(self, blocking=True, timeout=-1):
+        mon = self.mon
+        if self.inner.acquire(False):
+            return True
+        if not blocking:
+            return False
+        tid = mon.tid()
+        with mon.cv:
+            mon.set(tid, "blocked")
+        if not self.inner.acquire(True, WATCHDOG if timeout is None or timeout < 0 else min(timeout, WATCHDOG)):
+            if timeout is None or timeout < 0:
+                raise HarnessTimeout("watchdog: receive lock never released")
+            with mon.cv:
+                mon.set(tid, "running")
+            return False
+        with mon.cv:
+            rel = self.releaser
+            if rel is not None and rel != tid:
+                mon.wait_for(lambda: mon.state[rel] != "running", "hand-off of the receive lock")
+        return True
+
+    def release(self):
+        mon = self.mon
+        with mon.cv:
+            self.releaser = mon.tid()
+            for t in (0, 1):
+                if mon.state[t] == "blocked":
+                    mon.state[t] = "running"      # it will get the lock now
+            mon.cv.notify_all()
+        self.inner.release()
+
+    def __enter__(self):
+        self.acquire()
+        return self
+
+    def __exit__(self, *a):
+        self.release()
+
+    def locked(self):
+        return self.inner.locked()
+
+
+class GatedScriptTransport(ScriptTransport):
+    """every transport call parks until the scheduler serves it"""
+
+    def __init__(self, oracle, clock, mon):
+        super().__init__(oracle, clock)
+        self.mon = mon
+
+    def recv_into(self, buffer, timeout):
+        mon = self.mon
+        tid = mon.tid()
+        with mon.cv:
+            mon.set(tid, "parked")
+            mon.wait_for(lambda: mon.grant[tid], f"thread {tid} parked in the transport was never served")
+            mon.grant[tid] = False
+        return super().recv_into(buffer, timeout)
+
+
+def run_threads(inp):
+    from easynetwork.clients.tcp import TCPNetworkClient
+    from easynetwork.lowlevel import _lock
+    from easynetwork.lowlevel.api_sync.endpoints.stream import StreamEndpoint
+
+    _tag, case, sched, na, nb = inp
+    kind, cfg, _dec, oracle, _calls, _mode, bufsize, _api, impl = case[:9]
+    mon = Monitor()
+    clock = Clock()
+    tr = GatedScriptTransport(oracle, clock, mon)
+    ep = StreamEndpoint(tr, _protocol(kind, cfg, impl), max_recv_size=bufsize)
+    client = TCPNetworkClient.__new__(TCPNetworkClient)
+    rlock = InstrumentedLock(mon)
+    object.__setattr__(client, "_TCPNetworkClient__endpoint", ep)
+    object.__setattr__(client, "_TCPNetworkClient__send_lock", _lock.ForkSafeLock(threading.Lock))
+    object.__setattr__(client, "_TCPNetworkClient__receive_lock", _lock.ForkSafeLock(lambda: rlock))
+    object.__setattr__(client, "_TCPNetworkClient__socket_proxy", None)
+    left = {0: na, 1: nb}
+    errors = []
+
+    def worker(tid):
+        mon.tls.tid = tid
+        while True:
+            with mon.cv:
+                mon.wait_for(lambda: mon.cmd[tid] is not None, f"worker {tid} idle")
+                cmd = mon.cmd[tid]
+                mon.cmd[tid] = None
+            if cmd == "stop":
+                return
+            try:
+                try:
+                    res = [0, sc.canon_packet(client.recv_packet(timeout=None))]
+                except HarnessTimeout:
+                    raise
+                except Exception as exc:
+                    res = classify(exc)
+            except BaseException as exc:      # harness failure: report, keep the scheduler alive
+                errors.append(exc)
+                res = [9]
+            with mon.cv:
+                mon.log.append([tid, res])
+                mon.set(tid, "idle")
+
+    threads = [threading.Thread(target=worker, args=(t,), daemon=True) for t in (0, 1)]
+    for t in threads:
+        t.start()
+
+    def quiesce():
+        mon.wait_for(lambda: "running" not in mon.state.values(), "threads did not become quiescent")
+
+    def status(tid):
+        return [{"idle": 0, "blocked": 1, "parked": 2}[mon.state[tid]], left[tid]]
+
+    def step(tid):
+        with mon.cv:
+            st = mon.state[tid]
+            if st == "idle" and left[tid] > 0:
+                left[tid] -= 1
+                mon.state[tid] = "running"
+                mon.cmd[tid] = "call"
+                mon.cv.notify_all()
+            elif st == "parked":
+                mon.state[tid] = "running"
+                mon.grant[tid] = True
+                mon.cv.notify_all()
+            quiesce()
+            return [status(0), status(1)]
+
+    obs = []
+    try:
+        for tid in sched:
+            obs.append(step(tid))
+        out = [obs, [list(x) for x in mon.log], tr.taken, len(tr.script)]
+    finally:
+        # teardown: no new calls; serve whatever is parked until everything has returned
+        try:
+            left[0] = left[1] = 0
+            for _ in range(10000):
+                with mon.cv:
+                    parked = [t for t in (0, 1) if mon.state[t] == "parked"]
+                if not parked:
+                    break
+                tr.script.clear()       # anything still parked reads end-of-stream
+                step(parked[0])
+        finally:
+            with mon.cv:
+                mon.cmd[0] = mon.cmd[1] = "stop"
+                mon.cv.notify_all()
+            for t in threads:
+                t.join(WATCHDOG)
+            ep.close()
+    if errors:
+        raise errors[0]
+    if any(t.is_alive() for t in threads):
+        raise HarnessTimeout("a receiver thread is still alive")
+    return out
+
+
 def run_impl(inp):
     with warnings.catch_warnings():
         warnings.simplefilter("ignore")
+        if inp[0] == 200:
+            return run_threads(inp)
         return run_blocking(inp) if inp[5] == 0 else run_async(inp)
 
 
@@ -463,7 +673,7 @@ def _nontrivial(stream_total, k, impl_out_hint):
     return True
 
 
-def cases(tier, rng, escalate):
+def _single_cases(tier, rng, escalate):
     thorough = tier == "thorough" or escalate
     max_all = 5 if thorough else 4
     for fr in FRAMINGS:
@@ -548,6 +758,43 @@ def cases(tier, rng, escalate):
                                          "async" if mode else "blocking"], nontrivial=True)
 
 
+def _threaded_cases(tier, rng, escalate):
+    thorough = tier == "thorough" or escalate
+    n = 2500 if thorough else 350
+    for fr in FRAMINGS[:3]:
+        pool = fr["valid"] + fr["bad"] + fr["empty"]
+        for _ in range(n // 3):
+            frames = [rng.choice(pool) for _ in range(rng.randint(1, 4))]
+            stream = b"".join(frames) + (rng.choice(fr["partial"]) if rng.random() < 0.3 else b"")
+            r = rng.random()
+            if r < 0.35:
+                chunks = [stream]                       # several packets in ONE segment
+            elif r < 0.5:
+                chunks = [stream[i:i + 1] for i in range(len(stream))]
+            else:
+                chunks = sc.cuts_to_chunks(stream, [c for c in range(1, len(stream)) if rng.random() < 0.35])
+            oracle = [[0, ch, 0] for ch in chunks] + [[1]]
+            buffered = rng.random() < 0.5
+            bufsize = rng.choice([2, 3, 64, 64])
+            na, nb = rng.randint(1, 3), rng.randint(1, 3)
+            first = rng.choice([0, 1])
+            head = [first, 1 - first] if rng.random() < 0.7 else []     # the second call starts while the first is parked
+            head += [rng.choice([0, 1]) for _ in range(rng.randint(2, 8))]
+            nsteps = sum(len(ch) + 1 for ch in chunks) + na + nb + 3
+            tail = [i % 2 for i in range(2 * nsteps)]
+            case = mk(fr, buffered, oracle, [], 0, bufsize, 1)
+            yield dict(input=[200, case, head + tail, na, nb],
+                       tags=["two-threads", fr["name"], "buffered" if buffered else "copying",
+                             "second-call-while-first-parked" if len(head) >= 2 and head[0] != head[1] else "uncontended-start",
+                             "one-segment" if len(chunks) == 1 else "several-segments"],
+                       nontrivial=bool(len(head) >= 2 and head[0] != head[1]))
+
+
+def cases(tier, rng, escalate):
+    yield from _single_cases(tier, rng, escalate)
+    yield from _threaded_cases(tier, rng, escalate)
+
+
 # ---------------------------------------------------------------- the property, stated on the implementation
 
 def _stream_of(oracle):
@@ -560,7 +807,36 @@ def _stream_of(oracle):
     return s
 
 
+def _oracle_threads(inp):
+    _tag, case, sched, na, nb = inp
+    kind, cfg, _dec, orc, _calls, _mode, bufsize, _api, impl = case[:9]
+    stream = _stream_of(orc)
+    expected, _left = sc.spec_events_py(kind, cfg, impl, stream)
+    exp = [[0, e[1]] if e[0] == 0 else [1, 1] for e in expected]
+    _obs, log, _taken, _items = run_impl(inp)
+    results = [r for _tid, r in log]
+    seen_eof = False
+    delivered = []
+    for r in results:
+        if r == [2]:
+            seen_eof = True
+            if len(delivered) < len(exp) and not _limit_hit(kind, cfg, stream):
+                return (f"two threads: end-of-stream reported after {len(delivered)} results but {len(exp)} complete frames "
+                        f"were received before the peer closed")
+            continue
+        if seen_eof:
+            return f"two threads: after end-of-stream was reported, a later call returned {r}"
+        if r == [6] or r == [9]:
+            return f"two threads: unexpected failure {r}"
+        delivered.append(r)
+    if not _limit_hit(kind, cfg, stream) and delivered != exp[: len(delivered)]:
+        return f"two threads: returned calls {delivered} are not a prefix of the frame-by-frame decoding {exp}"
+    return None
+
+
 def oracle(inp):
+    if inp[0] == 200:
+        return _oracle_threads(inp)
     kind, cfg, _dec, orc, calls, mode, bufsize, api, impl = inp[:9]
     stream = _stream_of(orc)
     expected, _left = sc.spec_events_py(kind, cfg, impl, stream)
@@ -610,6 +886,15 @@ def signature(inp, failure):
 
 
 def shrink(inp):
+    if inp[0] == 200:
+        _tag, case, sched, na, nb = inp
+        for i in range(len(sched)):
+            yield [200, case, sched[:i] + sched[i + 1:], na, nb]
+        if na > 1:
+            yield [200, case, sched, na - 1, nb]
+        if nb > 1:
+            yield [200, case, sched, na, nb - 1]
+        return
     kind, cfg, dec, orc, calls, mode, bufsize, api, impl = inp[:9]
     for i in range(len(calls)):
         yield [kind, cfg, dec, orc, calls[:i] + calls[i + 1:], mode, bufsize, api, impl]
